@@ -7,7 +7,9 @@ SPEC_PART = dict(
              "every case; the 126 unrolled pack_bits_N/unpack_bits_N are NOT hand-written: tools/translate.py re-reads them "
              "into Gen/GenBitPack.v on every run and a symbolic evaluator, proved sound once, checks each against the bit-stream "
              "specification for all inputs"],
-    assumptions=["compact sketches with fewer than 2^32 entries (the count field is a u32)"],
+    assumptions=["compact sketches with fewer than 2^32 entries (the count field is a u32)",
+                 "the reader's seed has a non-zero 16-bit seed hash (sh <> 0 in the theorems; Err otherwise)",
+                 "c_wf does not include distinctness of unordered entries (the reader accepts repeated hashes)"],
     covers="theta: deserialize(serialize(c)) = Ok c and deserialize(serialize_compressed(c)) = Ok c (equality of the whole compact "
            "sketch: entries in order, theta, seed hash, ordered, empty) for every well-formed c, every entry count incl. every "
            "length mod 8 and every delta width 1..63; compact(ordered) of every reachable ThetaSketch is well-formed, and so is every value "
